@@ -176,4 +176,4 @@ def cases(ctx):
         tgt = rng.choice([path, path + ".payload", path + "." + rng.choice(P.ALL_NAMES)]) if rng.random() < 0.8 else "payload"
         steps = [f"G{path}", f"S{tgt}={v}", f"G{tgt}", "W", f"G{path}.payload", "G$1", "G$2", "G$3", "W"]
         out.append(Case(P.pkt_line(frame, steps), ("uncovered", host)))
-    return P.with_fix(ctx, out)
+    return P.with_witnesses(ctx, out)
